@@ -96,6 +96,9 @@ def cases_S(tier, seed):
         off = seed_offset(seed)
         pairs = pairs + [(100.0 + 6000 * off, 8000.0 - 500 * off)]
     out = []
+    for cls_, tab_ in (("ideal", None), ("single", "T_ship_gas")):  # smoothly graded fine grid: steps differ by < 0.1 %
+        out.append({"part": "S", "cls": cls_, "table": tab_, "p_f": 1000.0, "p_i": 8000.0, "nx": 8, "grid": "quadratic",
+                    "n": 1500, "T": 3.0, "sched": "scalar", "seed": seed})
     for nx, (g, n, T) in itertools.product(nxs, GRIDS):
         out.append({"part": "S", "cls": "ideal", "table": None, "p_f": 1000.0, "p_i": 8000.0, "nx": nx,
                     "grid": g, "n": n, "T": T, "sched": "scalar", "seed": seed})
